@@ -343,11 +343,19 @@ func runC07(c c07Case) *vh.Outcome {
 		// tags learnt from library-produced frames: tagOwner[tag] = (member, topic index) is not
 		// computable by the harness; what it can know is which tag a member used (own frames).
 		tagsOf := map[uint16][][]byte{} // member -> tags seen in its own frames
+		// (read and written from several goroutines once deliveries happen inline, inside the members' own goroutines)
+		var tagMu sync.Mutex
+		getTags := func(id uint16) [][]byte {
+			tagMu.Lock()
+			defer tagMu.Unlock()
+			return append([][]byte(nil), tagsOf[id]...)
+		}
 		var old []*sim.Frame
 		counter := map[uint16]int{}
 		net.Interpose = func(f *sim.Frame) []*sim.Frame {
 			_, tag, _, ok := decodeView(f.Data)
 			if ok {
+				tagMu.Lock()
 				known := false
 				for _, t := range tagsOf[f.From] {
 					if string(t) == string(tag) {
@@ -357,6 +365,7 @@ func runC07(c c07Case) *vh.Outcome {
 				if !known {
 					tagsOf[f.From] = append(tagsOf[f.From], append([]byte(nil), tag...))
 				}
+				tagMu.Unlock()
 			}
 			if c.Scripted && isByz[f.From] && !f.Injected {
 				return nil // withheld: the script decides what this member sends
@@ -419,7 +428,7 @@ func runC07(c c07Case) *vh.Outcome {
 				g.Data = encodeView(byte(1+lie.A%3), tag, view)
 			case 7: // answer for somebody else: another member's tag under the own source
 				other := uni[lie.A%len(uni)]
-				if ts := tagsOf[other]; len(ts) > 0 {
+				if ts := getTags(other); len(ts) > 0 {
 					g.Data = encodeView(byte(1+lie.B%3), ts[lie.B%len(ts)], view)
 				}
 			case 8:
@@ -468,7 +477,7 @@ func runC07(c c07Case) *vh.Outcome {
 					if announced[f.To][0] == nil {
 						announced[f.To][0] = map[uint16]bool{}
 					}
-					for _, t := range tagsOf[f.From] {
+					for _, t := range getTags(f.From) {
 						if string(t) == string(tag) {
 							announced[f.To][0][f.From] = true
 						}
@@ -575,7 +584,7 @@ func runC07(c c07Case) *vh.Outcome {
 				}
 				mv := c.Script[si]
 				src := uni[c.Byz[mv.Src%len(c.Byz)]]
-				if len(tagsOf[src]) == 0 {
+				if len(getTags(src)) == 0 {
 					return nil // tag not learnt yet (the puppet has not produced a frame)
 				}
 				return []sim.Action{{Name: "byz-script", Slot: 900 + si, Do: func() {
@@ -607,13 +616,13 @@ func runC07(c c07Case) *vh.Outcome {
 						for k := 0; k < len(uni)+2; k++ {
 							v := append([]uint16(nil), uni[:1+k%len(uni)]...)
 							v = append(v, uint16(40000+k))
-							net.Inject(&sim.Frame{From: src, To: dest, MsgType: 1, Data: encodeView(byte(mv.Type), tagsOf[src][0], v)})
+							net.Inject(&sim.Frame{From: src, To: dest, MsgType: 1, Data: encodeView(byte(mv.Type), getTags(src)[0], v)})
 						}
 						return
 					}
 					sort.Slice(view, func(i, j int) bool { return view[i] < view[j] })
 					info.LiesApplied++
-					net.Inject(&sim.Frame{From: src, To: dest, MsgType: 1, Data: encodeView(byte(mv.Type), tagsOf[src][0], view)})
+					net.Inject(&sim.Frame{From: src, To: dest, MsgType: 1, Data: encodeView(byte(mv.Type), getTags(src)[0], view)})
 				}}}
 			}
 		}
